@@ -280,7 +280,7 @@ def main(chk: Check) -> None:
         for tclass, ids in (("socket", [0, 1, 2]), ("http", [3, 4, 5])):
             strat = st.fixed_dictionaries(
                 {
-                    "spec": programs.program_specs(kinds=(kind,), faults=True, init_faults=False, early_exit=True, max_methods=1, max_calls=1, min_steps=2),
+                    "spec": programs.program_specs(kinds=(kind,), faults=True, init_faults=False, early_exit=True, max_methods=1, max_calls=1, min_steps=2, late_logs=True),
                     "cfg": st.sampled_from(ids),
                     "perturb": st.sampled_from(PERTURB),
                     "take": st.one_of(st.none(), st.integers(0, 4)),
@@ -289,3 +289,17 @@ def main(chk: Check) -> None:
                 }
             )
             chk.explore(f"{kind}_{tclass}", strat, run_case, quick=400, thorough=4000)
+    # focused class: a short producer stream that ends inside the HTTP /init response (so the client holds preloaded
+    # batches and a finished flag) and is cancelled / closed before those batches were consumed, then used again
+    ended_in_init = st.fixed_dictionaries(
+        {
+            "spec": programs.program_specs(kinds=("producer",), faults=False, init_faults=False, early_exit=True, max_methods=1, max_calls=1,
+                                           min_steps=1, late_logs=True),
+            "cfg": st.sampled_from([5, 5, 3, 4]),
+            "perturb": st.just("none"),
+            "take": st.sampled_from([0, 0, 1, None]),
+            "end": st.sampled_from(["cancel", "cancel", "close"]),
+            "n_inputs": st.just(0),
+        }
+    )
+    chk.explore("producer_http_ended_in_init", ended_in_init, run_case, quick=250, thorough=3000)
